@@ -215,9 +215,35 @@ def _dotunescape(s):
     return s.replace('\\n', '\n').replace('\\"', '"').replace('\\\\', '\\')
 
 
+class LazyStates(dict):
+    """id -> parsed state; parses the raw TLC text on first access"""
+
+    def __init__(self):
+        super().__init__()
+        self.raw = {}
+
+    def __missing__(self, k):
+        v = state(self.raw[k])
+        self[k] = v
+        return v
+
+    def __contains__(self, k):
+        return k in self.raw
+
+    def __len__(self):
+        return len(self.raw)
+
+    def keys(self):
+        return self.raw.keys()
+
+    def items(self):
+        for k in self.raw:
+            yield k, self[k]
+
+
 class Graph:
     def __init__(self):
-        self.nodes = {}      # id -> state dict
+        self.nodes = LazyStates()   # id -> state dict (lazy)
         self.init = []       # ids
         self.edges = {}      # src -> list of (name, args, dst)
 
@@ -227,18 +253,24 @@ class Graph:
 
 def dot(path):
     g = Graph()
+    lcache = {}
+    raw = g.nodes.raw
     with open(path) as f:
         for line in f:
             m = _edge.match(line)
             if m:
-                name, args = label(_dotunescape(m.group(3)))
-                g.edges.setdefault(m.group(1), []).append((name, args, m.group(2)))
+                lt = m.group(3)
+                la = lcache.get(lt)
+                if la is None:
+                    la = label(_dotunescape(lt))
+                    lcache[lt] = la
+                g.edges.setdefault(m.group(1), []).append((la[0], la[1], m.group(2)))
                 continue
             m = _node.match(line)
             if m:
                 nid = m.group(1)
-                if nid not in g.nodes:
-                    g.nodes[nid] = state(_dotunescape(m.group(2)))
+                if nid not in raw:
+                    raw[nid] = _dotunescape(m.group(2))
                 if 'style = filled' in line:
                     g.init.append(nid)
     return g
